@@ -546,7 +546,7 @@ func TestVerif_C19_http(t *testing.T) {
 	verifkit.RapidSetup(430, 4300)
 	rapid.Check(t, func(rt *rapid.T) {
 		c := c19GenCase().Draw(rt, "case")
-		for _, name := range c19ApplyKnown(&c) {
+		for _, name := range c.excluded {
 			col.Excluded(name)
 		}
 		st := &c19Stats{}
